@@ -184,7 +184,7 @@ HISTORY = {
     "C03/K3-m1": ("missed", "coordinators that list the partitions of an OffsetFetch answer in reverse order (fakecluster.ReverseOffsetFetchOrder)"),
     "C16/K5-m1": ("missed", "rule read-after-eof: the Read after the one that reported the end of the stream returns (0, io.EOF)"),
     "C04/K4-m1": ("missed", "NOT CAUGHT by C04's check (record offsets are not part of a frame's fields); reported by C05's check (TestFetch / TestPool / TestMutatedSets: offsets of records in compacted v2 batches)"),
-    "C06/K6-m1": ("missed", "NOT CAUGHT: the bytes a group operation of the Conn returns alias the Conn's read buffer; the exported callers (ConsumerGroup) decode them before the next exchange, only the unexported syncGroup / joinGroup hand them out raw"),
+    "C06/K6-m1": ("missed", "conn call kind assignment: the opaque bytes of a SyncGroup answer (through the verif wrapper of the unexported operation) are kept as handed out and compared only when every call of the case is over"),
     "C09/K3-m1": ("missed", "reader stratum commit-flood: interval commits go on while the commit loop sits in an unanswered OffsetCommit until the queue (QueueCapacity 1-3) is full and CommitMessages itself blocks; then its context ends"),
 }
 
